@@ -11,7 +11,7 @@ RULE = ("Cases: (grid, exhaustive) T in {1,2}, M=K=1 (and M=2,K=1 / M=1,K=2 for 
         "frequency over {below, first edge, mid-bins, last edge, above} of edges [1,2,4] and AM frequency over the "
         "same classes of edges2 [0.5,1,2,3] x {energy, amplitude} x squash_time in {False,'sum','mean'}; (random) "
         "Hypothesis arrays T<=60, M<=4, K<=4 with independent carrier / AM bin sets (1..12 bins, linear or log), "
-        "frequencies snapped to edges with p=0.3 and out-of-range on either axis, arrays handed over C-contiguous / column-major / strided / read-only. Oracle: triple loop "
+        "amplitudes non-negative (3 in 5 cases), of mixed sign or all negative (second-level 'amplitudes' are whatever the caller passes; the cell sums are signed sums), frequencies snapped to edges with p=0.3 and out-of-range on either axis, arrays handed over C-contiguous / column-major / strided / read-only. Oracle: triple loop "
         "holo[t,j,i] += w[t,m,k] iff f1[t,m] in carrier bin i and f2[t,m,k] in AM bin j (half-open bins); shape "
         "[T x AM bins x carrier bins]; 'sum' == full.sum(0), 'mean' == full.mean(0) (<=1e-12 rel). Non-trivial: "
         ">=1 out-of-range or edge-valued frequency, or carrier and AM bin counts differ.")
@@ -45,14 +45,14 @@ def oracle(case, rec):
     e2 = np.asarray(case['e2'], dtype=float)
     mode = case['mode']
     H = brute(f1, f2, a2, e1, e2, mode)
-    scale = 1e-12 * (1 + H.sum())
+    scale = 1e-12 * (1 + np.abs(H).sum())
     outs = {}
     lay = case.get('layout', 'C')
     if case.get('dtype', 'f8') == 'f4':      # single-precision frequencies: the brute force works on the exact stored values
         f1 = f1.astype(np.float32).astype(float)
         f2 = f2.astype(np.float32).astype(float)
         H = brute(f1, f2, a2, e1, e2, mode)
-        scale = 1e-12 * (1 + H.sum())
+        scale = 1e-12 * (1 + np.abs(H).sum())
     rec.cls('dtype=' + case.get('dtype', 'f8'))
     ft_ = np.float32 if case.get('dtype', 'f8') == 'f4' else np.float64
     ins = [gens.relayout(f1.astype(ft_), lay), gens.relayout(f2.astype(ft_), lay), gens.relayout(a2.copy(), lay)]   # what the routine gets
@@ -77,6 +77,7 @@ def oracle(case, rec):
                             'f1=%r f2=%r e1=%r e2=%r got %r expected %r' % (f1.tolist()[:4], f2.tolist()[:4], e1.tolist()[:6], e2.tolist()[:6],
                                                                             outs[sq].tolist()[:3], exp[sq].tolist()[:3]))
     rec.cls(tag)
+    rec.cls('amplitudes=%s' % ('non-negative' if (a2 >= 0).all() else 'signed'))
     rec.cls('mode=' + mode)
     rec.cls('bins_differ' if len(e1) != len(e2) else 'bins_equal')
     return oor1 or oor2 or edge or len(e1) != len(e2)
@@ -124,7 +125,7 @@ def random_case(draw):
         f[s] = e[rng.integers(0, len(e), int(s.sum()))]
         return f
     return {'f1': vals((T, M), e1, lo1, hi1), 'f2': vals((T, M, K), e2, lo2, hi2),
-            'a2': np.round(rng.random((T, M, K)) * 3, 4), 'e1': e1, 'e2': e2,
+            'a2': np.round((rng.random((T, M, K)) - draw(st.sampled_from([0.0, 0.0, 0.0, 0.3, 1.0]))) * 3, 4), 'e1': e1, 'e2': e2,
             'mode': draw(st.sampled_from(['energy', 'amplitude'])), 'layout': draw(st.sampled_from(gens.LAYOUTS)),
             'dtype': draw(st.sampled_from(['f8', 'f8', 'f4']))}
 
